@@ -473,7 +473,7 @@ def rule_l8(ctx, facts):
                 c = b.call_at(bi)
                 if c is not None and c.dst_local() == 0 and is_finder(facts, c):
                     continue
-                if c is not None and c.dst_local() == 0 and callee_str(c).endswith("Shared::from"):
+                if c is not None and c.dst_local() == 0 and c.name == "from" and (c.callee.get("impl_self") == "reclaim::Shared" or "reclaim::Shared" in (c.resolved or "")):
                     n += 1
                     ok = bool(true_edges) and dominated_by_edge(b, c.point, true_edges)
                     ctx.inst("L8", b, "node returned as found", c.span, ok,
